@@ -113,6 +113,8 @@ def gen_steps(rng, specs, nclients, n, client_ops=True, late_start=False, snoope
                     steps.append({"op": "c_write", "c": rng.randrange(4), "dev": d, "vec": v["name"], "els": pairs})
         elif r < 0.87:
             steps.append({"op": "gap", "dt": rng.choice([0.0, 0.0, 0.001, 0.05, 1.0, 10.0])})
+            if rng.random() < 0.4:
+                steps[-1]["iters"] = rng.randint(1, 8)
         elif r < 0.9:
             steps.append({"op": "stall", "conn": rng.choice(["cl0.ctl", "cl0.blob", "cl1.ctl"]), "dir": rng.choice(["up", "down"]),
                           "dt": rng.choice([0.01, 0.5, 5.0, 30.0])})
@@ -381,7 +383,7 @@ def execute(scen):
                 sim.settle()
                 judge()
             elif op == "gap":
-                sim.run_for(st["dt"])
+                sim.gap(st)
             elif op == "stall":
                 try:
                     ct, srv = sim.net.find(st["conn"])
